@@ -41,6 +41,7 @@ FILLERS = {
     ".5": ".5", "1#": "1#", "\"s\"": '"s"', "\"\"": '""', "\"s": '"s', "(1)": "(1)", "((1))": "((1))", "(": "(", ")": ")", "1 +": "1 +", "+ 1": "+ 1",
     "N% + 1": "N% + 1", "N% = 1": "N% = 1", "\"a\" + \"b\"": '"a" + "b"', "S$ + 1": "S$ + 1", "-N%": "-N%", "NOT N%": "NOT N%", "1, 2": "1, 2",
     "1; 2": "1; 2", "1 / 0": "1 / 0", "N% MOD 0": "N% MOD 0", "1 AND S$": "1 AND S$", "S$ < \"b\"": 'S$ < "b"', "1 < S$": "1 < S$", "#1": "#1",
+    "8": "8", "80": "80", "25": "25", "F$": "F$", "A": "A", "Z": "Z", "X": "X", "Qq": "Qq", "Pq%": "Pq%", "\"T.TXT\"": '"T.TXT"', "\"##\"": '"##"',
     "": "", " ": " ", ":": ":", "'": "'", ",": ",", ";": ";", "=": "=", "1 TO 2": "1 TO 2", "-": "-", "- -1": "- -1", "(N%": "(N%", "N%)": "N%)",
 }
 
@@ -71,6 +72,31 @@ DECL_TEMPLATES = {
     "type-decl": ["TYPE {1}", "  {2} AS INTEGER", "END TYPE"], "type-member": ["TYPE Tq", "  Q AS {1}", "END TYPE"],
 }
 FILES = {"IN.TXT": "12,abc\r\nline two\r\n"}
+
+# the fillers that make each two-slot template a well-formed statement: every filler is tried in each slot with the
+# natural partner in the other slot (besides the pairs with a Core filler, which are sampled)
+NATURAL = {
+    "assign": ("N%", "1"), "let": ("N%", "1"), "print2": ("N%", "S$"), "print-using": ('"##"', "1"), "call1": ("MySub", "1"), "call-kw": ("MySub", "1"),
+    "dim-arr": ("Qq", "1"), "dim-as": ("Qq", "Integer"), "redim": ("Qq", "1"), "const": ("Qq", "1"), "if-line": ("1", "Cls"), "for-bounds": ("1", "1"),
+    "select": ("N%", "1"), "case-range": ("0", "1"), "input2": ("N%", "S$"), "field": ("8", "F$"), "lset": ("F$", '"s"'), "name": ('"T.TXT"', '"s"'),
+    "poke": ("Varptr(N%)", "1"), "locate": ("1", "1"), "color": ("1", "0"), "width": ("80", "25"), "view-print": ("1", "25"), "defint": ("A", "Z"),
+    "member-assign": ("Rec", "X"), "elem-assign": ("Arr", "1"), "elem-member-assign": ("RecArr", "1"), "elem-print": ("Arr", "1"),
+    "elem-member-print": ("RecArr", "1"), "two-subscripts": ("Arr", "1"), "swap-assign": ("N%", "1"), "nested": ("1", "1"),
+    "sub-decl": ("Qq", "Pq%"), "function-decl": ("Qq", "Pq%"), "declare": ("Qq", "Pq%"), "type-decl": ("Qq", "X"),
+}
+
+
+def stratified(sl, rng, n_random):
+    """every one-slot case, every filler in each slot of a two-slot template with the natural partner, plus a random sample"""
+    must, rest = [], []
+    for (t, a, b) in sl:
+        nat = NATURAL.get(t)
+        if nat is None or a == nat[0] or b == nat[1]:
+            must.append((t, a, b))
+        else:
+            rest.append((t, a, b))
+    rng.shuffle(rest)
+    return must + rest[:n_random]
 
 
 def program(tname, f1, f2):
